@@ -281,6 +281,7 @@ pub fn replay(opts: &Opts) -> i32 {
   let ok = match engine.as_str() {
     "mapper" => crate::mapper_mon::replay(&rep, &mut out),
     "loop" => crate::loop_mon::replay(&rep, &mut out),
+    "systemd" => crate::systemd_mon::replay(&rep, &mut out),
     _ => { eprintln!("replay: unknown engine {:?}", engine); return 2; }
   };
   if !ok { eprintln!("replay: malformed replay object"); return 2; }
